@@ -3,27 +3,33 @@
 
    `run rid fmt rempty l0 ops` is a fresh ComponentRegistry (identity rid, tag formatter fmt: ANY function
    name -> tag or ValueError) driven by the calls `ops` on the Library l0 (ANY initial tag table, ANY protected
-   list).  All theorems hold for every history, by induction over the call list. *)
+   list).  The calls include `OProtect ps` = mark_protected_tags(library, ps): the protected list is state of the
+   Library and may be replaced at any point.  All theorems hold for every history, by induction over the call list;
+   those about "a tag is in the library exactly while used" need the history to be DISCIPLINED (`disciplined`: no tag
+   is marked protected while a registered component uses it - see protecting_a_live_tag_leaves_it_behind). *)
 From DJC Require Import Lib.Base Registry.Model Registry.Proofs Gen.C15.
 Import Coq.Strings.String.StringSyntax.
 Delimit Scope string_scope with string.
 
 (* Results (values and exception classes, call by call) and final contents equal those of a plain dictionary
    driven by the same calls (dict_step: AlreadyRegistered iff another class holds the name, NotRegistered iff the
-   name is missing, ValueError / TagProtectedError iff the formatter refuses the name / the tag is protected). *)
+   name is missing, ValueError / TagProtectedError iff the formatter refuses the name / the tag is in the protected
+   list AS IT IS AT THAT CALL; OProtect replaces the list). *)
 Theorem refines_dict : forall rid fmt l0 ops,
-  let '(r, _, outs) := run rid fmt rempty l0 ops in
-  dict_run fmt (prot l0) [] ops = (contents r, outs).
+  let '(r, l, outs) := run rid fmt rempty l0 ops in
+  dict_run fmt (prot l0, []) ops = ((prot l, contents r), outs).
 Proof. exact refines_dict_lemma. Qed.
 Print Assumptions refines_dict.
 
 (* The dictionary of the specification raises exactly on conflicting / missing names. *)
 Theorem dictionary_errors_exact : forall fmt ps d n c,
-  (snd (dict_step fmt ps d (ORegister n c)) = RErr EAlreadyRegistered <->
+  (snd (dict_step fmt (ps, d) (ORegister n c)) = RErr EAlreadyRegistered <->
      exists c', slookup n d = Some c' /\ fst c' <> fst c) /\
-  (snd (dict_step fmt ps d (OUnregister n)) = RErr ENotRegistered <-> slookup n d = None) /\
-  (snd (dict_step fmt ps d (OGet n)) = RErr ENotRegistered <-> slookup n d = None) /\
-  (forall c', slookup n d = Some c' -> snd (dict_step fmt ps d (OGet n)) = RCls c').
+  (snd (dict_step fmt (ps, d) (ORegister n c)) = RErr ETagProtected <->
+     (forall c', slookup n d = Some c' -> fst c' = fst c) /\ exists t, fmt n = Some t /\ In t ps) /\
+  (snd (dict_step fmt (ps, d) (OUnregister n)) = RErr ENotRegistered <-> slookup n d = None) /\
+  (snd (dict_step fmt (ps, d) (OGet n)) = RErr ENotRegistered <-> slookup n d = None) /\
+  (forall c', slookup n d = Some c' -> snd (dict_step fmt (ps, d) (OGet n)) = RCls c').
 Proof. exact dictionary_errors_exact_lemma. Qed.
 Print Assumptions dictionary_errors_exact.
 
@@ -40,10 +46,12 @@ Print Assumptions no_internal_error.
    with the same hash - the identical object or ANOTHER class object with the same import path: the call is
    accepted; the names, every name's tag, `_tags`, the library's tag table and the protected list are unchanged;
    the stored object becomes the one just passed, in place (`sset`, dict order kept).  (In the code the library
-   slot receives a fresh `tag_fn` closure over the same registry; the model identifies a slot with its owner.) *)
+   slot receives a fresh `tag_fn` closure over the same registry; the model identifies a slot with its owner.)
+   Premise `nmem t (prot l) = false`: the tag has not been marked protected since; it always holds in a disciplined
+   history (disciplined_history_used_tags_unprotected) - otherwise the call raises TagProtectedError (refines_dict). *)
 Theorem same_hash_reregistration_replaces_object_only : forall rid fmt l0 ops n c t c',
   let '(r, l, _) := run rid fmt rempty l0 ops in
-  slookup n (reg r) = Some (c, t) -> cls_hash c' = cls_hash c ->
+  slookup n (reg r) = Some (c, t) -> cls_hash c' = cls_hash c -> nmem t (prot l) = false ->
   step rid fmt r l (ORegister n c') = ({| reg := sset n (c', t) (reg r); tgs := tgs r |}, l, RNone).
 Proof. exact same_hash_reregistration_lemma. Qed.
 Print Assumptions same_hash_reregistration_replaces_object_only.
@@ -51,7 +59,7 @@ Print Assumptions same_hash_reregistration_replaces_object_only.
 (* The same, seen through the API: get(n) is the new object, every other name and the set of names are as before. *)
 Theorem same_hash_reregistration_seen_through_api : forall rid fmt l0 ops n c t c',
   let '(r, l, _) := run rid fmt rempty l0 ops in
-  slookup n (reg r) = Some (c, t) -> cls_hash c' = cls_hash c ->
+  slookup n (reg r) = Some (c, t) -> cls_hash c' = cls_hash c -> nmem t (prot l) = false ->
   let '(r', l', x) := step rid fmt r l (ORegister n c') in
   x = RNone /\ l' = l /\ tgs r' = tgs r /\ get n r' = RCls c' /\
   (forall m, m <> n -> get m r' = get m r) /\ skeys (reg r') = skeys (reg r).
@@ -73,9 +81,16 @@ Print Assumptions class_objects_never_inspected.
    (registry, tag sets, library). *)
 Theorem same_class_reregistration_noop : forall rid fmt l0 ops n c t,
   let '(r, l, _) := run rid fmt rempty l0 ops in
-  slookup n (reg r) = Some (c, t) -> step rid fmt r l (ORegister n c) = (r, l, RNone).
+  slookup n (reg r) = Some (c, t) -> nmem t (prot l) = false -> step rid fmt r l (ORegister n c) = (r, l, RNone).
 Proof. exact same_class_noop_lemma. Qed.
 Print Assumptions same_class_reregistration_noop.
+
+Theorem disciplined_history_used_tags_unprotected : forall rid fmt l0 ops n c t,
+  disciplined rid fmt rempty l0 ops = true ->
+  let '(r, l, _) := run rid fmt rempty l0 ops in
+  slookup n (reg r) = Some (c, t) -> nmem t (prot l) = false.
+Proof. exact disciplined_used_unprotected_lemma. Qed.
+Print Assumptions disciplined_history_used_tags_unprotected.
 
 (* `_tags` is the inverse image of `_registry`: tag t maps to exactly the names registered with tag t, never to
    an empty or stale set. *)
@@ -84,24 +99,45 @@ Theorem tags_consistent_always : forall rid fmt l0 ops,
 Proof. exact tags_consistent_lemma. Qed.
 Print Assumptions tags_consistent_always.
 
-(* A tag is in the library as this registry's tag function exactly while some registered component uses it;
-   a tag that was not in the library beforehand is present exactly while it is used. *)
+(* Every history: the tag of a registered component is in the library, as this registry's tag function. *)
+Theorem used_tag_always_in_library : forall rid fmt l0 ops n t,
+  let '(r, l, _) := run rid fmt rempty l0 ops in
+  uses r n t -> slookup t (ltags l) = Some (OComp rid).
+Proof. exact used_tag_in_library_lemma. Qed.
+Print Assumptions used_tag_always_in_library.
+
+(* Disciplined histories: a tag is in the library as this registry's tag function EXACTLY while some registered
+   component uses it; a tag that was not in the library beforehand is present exactly while it is used; a used tag
+   is not protected. *)
 Theorem library_tag_iff_used : forall rid fmt l0 ops t,
-  lib_foreign rid l0 ->
+  lib_foreign rid l0 -> disciplined rid fmt rempty l0 ops = true ->
   let '(r, l, _) := run rid fmt rempty l0 ops in
   ((exists n, uses r n t) <-> slookup t (ltags l) = Some (OComp rid)) /\
-  (slookup t (ltags l0) = None -> (smem t (ltags l) = true <-> exists n, uses r n t)).
+  (slookup t (ltags l0) = None -> (smem t (ltags l) = true <-> exists n, uses r n t)) /\
+  (forall n, uses r n t -> nmem t (prot l) = false).
 Proof. exact library_tag_iff_used_lemma. Qed.
 Print Assumptions library_tag_iff_used.
 
-(* Protected tags: the protected list never changes, the library entry of a protected tag is what it was at the
-   start (neither overwritten nor removed nor created), and no component is ever registered under it. *)
-Theorem protected_never_touched : forall rid fmt l0 ops t,
-  In t (prot l0) ->
-  let '(r, l, _) := run rid fmt rempty l0 ops in
-  prot l = prot l0 /\ slookup t (ltags l) = slookup t (ltags l0) /\ forall n, ~ uses r n t.
+(* Protected tags.  Whenever a tag t is in the protected list - from the start, or since some mark_protected_tags call
+   in the middle of the history (ops1) - nothing that follows (ops2) touches it, for as long as every later
+   mark_protected_tags call keeps t in its list: t is still protected, its library entry is what it was at that moment
+   (not overwritten, not removed, not created), and if no component used t then, none ever does.  EVERY history. *)
+Theorem protected_never_touched : forall rid fmt l0 ops1 ops2 t,
+  let '(r1, l1, _) := run rid fmt rempty l0 ops1 in
+  In t (prot l1) -> (forall ps, In (OProtect ps) ops2 -> In t ps) ->
+  let '(r2, l2, _) := run rid fmt r1 l1 ops2 in
+  In t (prot l2) /\ slookup t (ltags l2) = slookup t (ltags l1) /\
+  ((forall n, ~ uses r1 n t) -> forall n, ~ uses r2 n t).
 Proof. exact protected_never_touched_lemma. Qed.
 Print Assumptions protected_never_touched.
+
+(* The protected list is what the last mark_protected_tags call said (the initial list if there was none): registry
+   calls never change it. *)
+Theorem protected_list_is_last_marked : forall rid fmt l0 ops,
+  let '(_, l, _) := run rid fmt rempty l0 ops in
+  prot l = fold_left (fun ps o => match o with OProtect ps' => ps' | _ => ps end) ops (prot l0).
+Proof. exact protected_list_lemma. Qed.
+Print Assumptions protected_list_is_last_marked.
 
 (* Whatever else is in the tag table is an entry that was there at the start, unchanged. *)
 Theorem foreign_tags_kept_or_removed : forall rid fmt l0 ops t o,
@@ -129,8 +165,8 @@ Theorem world_refines_dicts : forall ops w0 i rg l0,
   NoDup (map wlib (wregs w0)) ->
   nth_error (wregs w0) i = Some rg -> wst rg = rempty -> nth_error (wlibs w0) (wlib rg) = Some l0 ->
   let '(w, outs) := wrun w0 ops in
-  exists rg', nth_error (wregs w) i = Some rg' /\
-              dict_run (wfmt rg) (prot l0) [] (project i ops) = (contents (wst rg'), project_outs i ops outs).
+  exists rg' l, nth_error (wregs w) i = Some rg' /\ nth_error (wlibs w) (wlib rg) = Some l /\
+                dict_run (wfmt rg) (prot l0, []) (project i ops) = ((prot l, contents (wst rg')), project_outs i ops outs).
 Proof. exact world_refines_dicts_lemma. Qed.
 Print Assumptions world_refines_dicts.
 
@@ -138,15 +174,28 @@ Print Assumptions world_refines_dicts.
 Theorem world_library_consistent : forall ops w0 i rg l0 t,
   NoDup (map wlib (wregs w0)) ->
   nth_error (wregs w0) i = Some rg -> wst rg = rempty -> nth_error (wlibs w0) (wlib rg) = Some l0 ->
-  lib_foreign (N.of_nat i) l0 ->
+  lib_foreign (N.of_nat i) l0 -> disciplined (N.of_nat i) (wfmt rg) rempty l0 (project i ops) = true ->
   let '(w, _) := wrun w0 ops in
   exists rg' l, nth_error (wregs w) i = Some rg' /\ nth_error (wlibs w) (wlib rg) = Some l /\
     tags_consistent (wst rg') /\
     ((exists n, uses (wst rg') n t) <-> slookup t (ltags l) = Some (OComp (N.of_nat i))) /\
     (slookup t (ltags l0) = None -> (smem t (ltags l) = true <-> exists n, uses (wst rg') n t)) /\
-    (In t (prot l0) -> slookup t (ltags l) = slookup t (ltags l0) /\ forall n, ~ uses (wst rg') n t).
+    (forall n, uses (wst rg') n t -> nmem t (prot l) = false).
 Proof. exact world_library_consistent_lemma. Qed.
 Print Assumptions world_library_consistent.
+
+(* ... and protection: a tag that is protected in the library of registry i after ops1 is not touched by ops2 - calls on
+   ANY registry of the world - as long as the mark_protected_tags calls on that library keep it in the list. *)
+Theorem world_protected_never_touched : forall ops1 ops2 w0 i rg l0 t,
+  NoDup (map wlib (wregs w0)) ->
+  nth_error (wregs w0) i = Some rg -> wst rg = rempty -> nth_error (wlibs w0) (wlib rg) = Some l0 ->
+  (forall ps, In (OProtect ps) (project i ops2) -> In t ps) ->
+  let '(w1, _) := wrun w0 ops1 in
+  let '(w2, _) := wrun w0 (ops1 ++ ops2) in
+  forall l1, nth_error (wlibs w1) (wlib rg) = Some l1 -> In t (prot l1) ->
+  exists l2, nth_error (wlibs w2) (wlib rg) = Some l2 /\ In t (prot l2) /\ slookup t (ltags l2) = slookup t (ltags l1).
+Proof. exact world_protected_lemma. Qed.
+Print Assumptions world_protected_never_touched.
 
 (* The tree form of the correspondence check (harness/c15.py, exhaustive part) accepts a forest of calls exactly when
    every history in it - every path from a root to a node - is accepted call by call. *)
@@ -234,6 +283,33 @@ Example object_renaming_nontrivial :
   let f := fun c : N * N => if N.eqb (fst c) 1 then (fst c, 3 - snd c)%N else c in
   (forall h o, cls_hash (f (h, o)) = cls_hash (h, o)) /\ f (1, 1)%N = (1, 2)%N /\ f (1, 2)%N = (1, 1)%N /\ f (0, 0)%N = (0, 0)%N.
 Proof. split; [intros h o; simpl; destruct (N.eqb h 1); reflexivity | repeat split]. Qed.
+
+(* "Protect later" (seed C15c): the Library is marked only AFTER the registry has been used; the registration of a now
+   protected name is refused, the library's own `slot` is what it was, the earlier component is unaffected; the history
+   is disciplined, and the premises of protected_never_touched are met with ops1 = the first two calls. *)
+Example protect_later_is_honoured :
+  let slot := s2n "slot"%string in let card := s2n "card"%string in
+  let l0 := {| ltags := [(slot, OBuiltin); (s2n "fill"%string, OBuiltin)]; prot := [] |} in
+  let ops := [ORegister card (0, 0)%N; OProtect Gen.C15.protected_tags; ORegister slot (1, 1)%N; OUnregister slot; OClear] in
+  (let '(r, l, outs) := run 7%N (fmt_of FShorthand) rempty l0 ops in (outs, ltags l, prot l))
+    = ([RNone; RNone; RErr ETagProtected; RErr ENotRegistered; RNone], ltags l0, Gen.C15.protected_tags) /\
+  disciplined 7%N (fmt_of FShorthand) rempty l0 ops = true /\
+  (let '(_, l1, _) := run 7%N (fmt_of FShorthand) rempty l0 [ORegister card (0, 0)%N; OProtect Gen.C15.protected_tags] in
+   nmem slot (prot l1)) = true.
+Proof. vm_compute. repeat split. Qed.
+
+(* The one corner where "a tag exists exactly while used" and "protected tags are never removed" pull in opposite
+   directions: marking the tag of a LIVE component as protected.  The code then keeps the tag function in the library
+   after the component is unregistered (and refuses to re-register the component).  Such histories are not
+   disciplined; the statement is silent about them; the harness reports them, never alarms. *)
+Example protecting_a_live_tag_leaves_it_behind :
+  let a := s2n "a"%string in
+  let l0 := {| ltags := []; prot := [] |} in
+  let ops := [ORegister a (0, 0)%N; OProtect [a]; ORegister a (0, 0)%N; OUnregister a; OAll] in
+  (let '(r, l, outs) := run 7%N (fmt_of FShorthand) rempty l0 ops in (outs, ltags l, contents r))
+    = ([RNone; RNone; RErr ETagProtected; RNone; RAll []], [(a, OComp 7%N)], []) /\
+  disciplined 7%N (fmt_of FShorthand) rempty l0 ops = false.
+Proof. vm_compute. split; reflexivity. Qed.
 
 (* the tree check is not vacuous: a two-level forest with the right observations is accepted, with a wrong one refused *)
 Example tree_check_discriminates :
